@@ -118,3 +118,12 @@ func (conR *ConsensusReactor) VerifStartReactorOnly() {
 	conR.Start()
 	conR.fastSync = fs
 }
+
+// VerifRotateWAL rotates the head file of the write-ahead log now (the group does so by itself
+// whenever a periodic check finds the head above its size limit).
+func (cs *ConsensusState) VerifRotateWAL() {
+	if cs.wal != nil && cs.wal.group != nil {
+		cs.wal.group.Flush()
+		cs.wal.group.RotateFile()
+	}
+}
